@@ -3,6 +3,7 @@ import TucanProofs.Lemmas.GraphFromMolecule
 import TucanProofs.Lemmas.LineMachinery
 import TucanProofs.Lemmas.Pipeline
 import TucanProofs.Lemmas.RejectKind
+import TucanProofs.Lemmas.IsoCompose
 /-!
 # S6 — decode ∘ encode: parsing the emitted string reconstructs the molecule
 
@@ -1221,7 +1222,6 @@ theorem reset_iso_ident (c : Graph) : Iso SameIdent id c c.resetExplored := by
 theorem sameIdent_of_eq' (x y : Atom) (h : x = y) : SameIdent x y := by
   subst h; exact ⟨rfl, rfl, rfl, rfl, rfl⟩
 
--- §MARK
 end RoundTrip
 
 /-- **C03 (model level), reconstruction half.** -/
